@@ -3,7 +3,7 @@
    [Api.api_step cfg_now] is the faithful model of the repaired gateway handlers, tied to the code
    by the C06 correspondence check (exact replay of exhaustive short and random long histories);
    [Spec.spec_step] is the reference key-value model. *)
-From HV Require Import Base.Prelude Swamp.Api Swamp.Spec Swamp.ApiProofs.
+From HV Require Import Base.Prelude Swamp.Api Swamp.Spec Swamp.Abs Swamp.ApiProofs.
 Local Open Scope Z_scope.
 
 (* Every request of every history, from every reachable or unreachable server state, returns a
@@ -30,6 +30,16 @@ Theorem C06_step_simulation : forall s q,
   spec_step (abs s) q = (abs s', r) /\ wf s' = true.
 Proof. exact step_sim. Qed.
 Print Assumptions C06_step_simulation.
+
+(* The per-request oracle of the correspondence check (ApiCheck.walk) calls a differing response a
+   violation when the request is inside the specified inputs and consults no tainted record. In every
+   well-formed state all requests are clean, and such a request is answered by the faithful model
+   exactly as by the reference model - the oracle never blames the code for the model's own gap. *)
+Theorem C06_oracle_clean_requests_agree : forall s q,
+  wf s = true -> disc (abs s) q = 0 ->
+  clean s q = true /\ snd (spec_step (abs s) q) = snd (api_step cfg_now s q).
+Proof. exact clean_step_agrees. Qed.
+Print Assumptions C06_oracle_clean_requests_agree.
 
 (* The hypothesis is satisfiable by a non-trivial history (13 requests, all request families). *)
 Theorem C06_hypothesis_satisfiable :
